@@ -11,7 +11,16 @@
    excellent/types XObject.initialize     object.go:248   `if p == "__default__" { x.def = v } else { x.props[p] = v }`.
    flows Contact.MarshalJSON              contact.go:677  `ce.Fields[v.field.Key()] = v.Value`; FieldValues.Set stores
         every value under its field's key, so v.field.Key() is the loop key.
-   flows/actions CallWebhookAction.Validate  call_webhook.go:78   only returns an error for an invalid header name.
+   (flows/actions CallWebhookAction.Validate and luis Entities.UnmarshalJSON were listed here with reason RErrPresence until the
+    review showed that the error TEXT named whichever offending key came first and reaches engine output; fixed in goflow as
+    f501005: both now visit sorted keys and need no exception.)
+   flows Results.Context                  results.go:149   `entries[k] = Context(env, v)`: flows.Context dispatches v.Context(env) through an
+        interface, which the call summary over-approximates by every Context method of the module; for *Result the method builds
+        an object from the result's own fields.
+   flows FieldValues.Context              field.go:284    `v.ToXValue(env)` may consult env.LocationResolver() (supplied by the embedder: unknown to
+        the summary); it reads the value and the environment only.  types.Render is pure.
+   flows/definition/legacy addTranslationMap / MultiMap  also call expressions.MigrateTemplate (ANTLR parser, outside the module): a function
+        of its text argument (that is C17's subject).
    flows/definition flowAssets.FindByName  assets.go:60   first cached flow with the name; see RFirstMatchUnique.
    flows/definition languageTranslation.Enumerate  localization.go:61,62   unexported type, no caller.
    flows/definition/legacy TransformTranslations  utils.go:63   every iteration only touches transformed[language].
@@ -22,7 +31,6 @@
    flows/definition/migrations Migrate13_5  13_x.go:126   per language: translation of that language only.
    flows/definition/migrations migrate     base.go:81   collected versions, sort.SliceStable by LessThan; the early
         `return data, nil` between loop and sort does not return the slice.
-   services/classification/luis Entities.UnmarshalJSON  client.go:49   e.Values[key] = v, error return otherwise.
    services/webhooks service.Call          service.go:41   default headers from the engine configuration.
    utils/jsonpath visit                    path.go:101   `k == selector || selector == "*"`, typed[k] = tx(..). *)
 From Coq Require Import List String.
@@ -39,17 +47,17 @@ Definition map_range_exceptions : list exception_entry := [
   x "excellent/types" "XObject.Get" 0 [EAssignOuter; EFlagSet; ELoopCarried] RMinMatch;
   x "excellent/types" "XObject.initialize" 0 [EAssignOuter; EMapWriteKey] RKeyGuardedAssign;
   x "flows" "Contact.MarshalJSON" 0 [EMapWriteOther] RValueKeyedByOwnKey;
-  x "flows/actions" "CallWebhookAction.Validate" 0 [EReturnErr] RErrPresence;
   x "flows/definition" "flowAssets.FindByName" 0 [EReturnValue] RFirstMatchUnique;
   x "flows/definition" "languageTranslation.Enumerate" 0 [ECallback; ENestedMapRange] RNoCaller;
   x "flows/definition" "languageTranslation.Enumerate" 1 [ECallback] RNoCaller;
   x "flows/definition/legacy" "TransformTranslations" 0 [EAssignOuter; EMapWriteKey] RKeyPartitioned;
   x "flows/definition/legacy" "migrateRuleSet" 0 [ELoopCarried; EMapWriteOther; EReturnErr] RConflictChecked;
-  x "flows/definition/legacy" "migratedLocalization.addTranslationMap" 0 [EAssignOuter; ECallStmt] RKeyGuardedAssign;
-  x "flows/definition/legacy" "migratedLocalization.addTranslationMultiMap" 0 [EAssignOuter; ECallStmt] RKeyGuardedAssign;
+  x "flows/definition/legacy" "migratedLocalization.addTranslationMap" 0 [EAssignOuter; ECallImpure; ECallStmt] RKeyGuardedAssign;
+  x "flows/definition/legacy" "migratedLocalization.addTranslationMultiMap" 0 [EAssignOuter; ECallImpure; ECallStmt] RKeyGuardedAssign;
+  x "flows" "Results.Context" 0 [ECallImpure; EMapWriteKey] RPureCalleeReviewed;
+  x "flows" "FieldValues.Context" 0 [EAppend SortTotal; ECallImpure; EMapWriteKey] RPureCalleeReviewed;
   x "flows/definition/migrations" "Migrate13_5" 0 [ECallStmt] RKeyPartitioned;
   x "flows/definition/migrations" "migrate" 0 [EAppend SortNone] RStableSortInjective;
-  x "services/classification/luis" "Entities.UnmarshalJSON" 0 [EMapWriteKey; EReturnErr] RErrPresence;
   x "services/webhooks" "service.Call" 0 [ECallStmt] RHeaderDefaults;
   x "utils/jsonpath" "visit" 0 [ECallStmt; ECallback; EMapWriteKey] RKeySelected
 ].
